@@ -266,6 +266,18 @@ func (e *Engine) execUnOp(st *State, fr *Frame, x *ssa.UnOp) {
 	v := e.get(st, fr, x.X)
 	switch x.Op {
 	case token.MUL:
+		if g, ok := x.X.(*ssa.Global); ok && types.Identical(x.Type(), types.Universe.Lookup("error").Type()) {
+			// package-level error variables (sentinels) are treated as immutable, non-nil and
+			// pairwise distinct constants (assumption, listed in the evidence)
+			name := g.Pkg.Pkg.Path() + "." + g.Name()
+			if name == modulePath+".ErrClosed" {
+				name = "net.ErrClosed"
+			}
+			e.assumed["package-level error variables are immutable, non-nil and pairwise distinct (p2p.ErrClosed == net.ErrClosed)"] = true
+			n := IntLit(tagNumber("errvar!" + name))
+			fr.vals[x] = VIface{Tag: n, Val: n}
+			return
+		}
 		p := v.(VPtr)
 		e.assertNonNil(st, fr, fr.sites[x], p)
 		val := e.loadPtr(st, p, nil)
